@@ -6,6 +6,7 @@
 package scte35
 
 import (
+	"bytes"
 	"github.com/Comcast/gots/v2"
 )
 
@@ -301,7 +302,7 @@ func specCanClose(in, out byte, sameEvent, samePTS, lastSegment, subSegs, lastSu
 //@ transparent segmentationDescriptor.SCTE35 segmentationDescriptor.EventID segmentationDescriptor.TypeID
 //@ transparent segmentationDescriptor.SegmentNumber segmentationDescriptor.SegmentsExpected segmentationDescriptor.HasSubSegments
 //@ transparent segmentationDescriptor.SubSegmentNumber segmentationDescriptor.SubSegmentsExpected
-//@ transparent scte35.PTS scte35.HasPTS timeSignal.HasPTS spliceNull.HasPTS spliceInsert.HasPTS
+//@ transparent scte35.PTS scte35.HasPTS timeSignal.HasPTS spliceNull.HasPTS spliceInsert.HasPTS timeSignal.PTS spliceNull.PTS spliceInsert.PTS
 
 //@ func (d *segmentationDescriptor) IsOut() bool
 //@   props C19 C05
@@ -374,3 +375,117 @@ func lemmaEqualCongruence(a, b, x *segmentationDescriptor) bool {
 //@   modifies nothing
 
 var _ = gots.ErrNoPayload
+
+// ---------------------------------------------------------------- C05/C08: command parsers over a byte buffer
+
+// The parser reads through *bytes.Buffer; its methods (ReadByte, UnreadByte, Next, Len) are inlined
+// from the standard library source, under the Buffer's own invariant (verifBufOK).
+
+//@ func uint40(buf []byte) gots.PTS
+//@   props C05 C08
+//@   requires len(buf) >= 5
+//@   ensures uint64(result) == uint64(buf[0]%2)<<32|uint64(buf[1])<<24|uint64(buf[2])<<16|uint64(buf[3])<<8|uint64(buf[4])
+//@   modifies nothing
+
+//@ func parseSpliceTime(buf *bytes.Buffer) (timeSpecified bool, pts gots.PTS, err error)
+//@   props C05 C08
+//@   requires buf != nil && verifBufOK(buf)
+//@   ensures verifBufOK(buf)
+//@   ensures old(buf.Len()) == 0 ==> err == gots.ErrInvalidSCTE35Length && !timeSpecified
+//@   ensures old(buf.Len()) >= 1 && old(buf.Bytes()[0]) < 128 ==> err == nil && !timeSpecified && pts == 0 && buf.Len() == old(buf.Len())-1
+//@   ensures old(buf.Len()) >= 5 && old(buf.Bytes()[0]) >= 128 ==> err == nil && timeSpecified && buf.Len() == old(buf.Len())-5
+//@   ensures old(buf.Len()) >= 5 && old(buf.Bytes()[0]) >= 128 ==> uint64(pts) == uint64(old(buf.Bytes()[0])%2)<<32|uint64(old(buf.Bytes()[1]))<<24|uint64(old(buf.Bytes()[2]))<<16|uint64(old(buf.Bytes()[3]))<<8|uint64(old(buf.Bytes()[4]))
+//@   ensures old(buf.Len()) >= 1 && old(buf.Len()) < 5 && old(buf.Bytes()[0]) >= 128 ==> err == gots.ErrInvalidSCTE35Length
+//@   ensures buf.Len() <= old(buf.Len())
+//@   modifies *buf
+
+//@ func parseTimeSignal(buf *bytes.Buffer) (cmd *timeSignal, err error)
+//@   props C05 C08
+//@   requires buf != nil && verifBufOK(buf)
+//@   ensures verifBufOK(buf) && buf.Len() <= old(buf.Len())
+//@   ensures err == nil ==> cmd != nil && fresh(cmd) && cmd.hasPTS
+//@   ensures err != nil ==> cmd == nil
+//@   ensures old(buf.Len()) >= 5 && old(buf.Bytes()[0]) >= 128 ==> err == nil && uint64(cmd.pts) == uint64(old(buf.Bytes()[0])%2)<<32|uint64(old(buf.Bytes()[1]))<<24|uint64(old(buf.Bytes()[2]))<<16|uint64(old(buf.Bytes()[3]))<<8|uint64(old(buf.Bytes()[4]))
+//@   ensures old(buf.Len()) >= 1 && old(buf.Bytes()[0]) < 128 ==> err == gots.ErrSCTE35UnsupportedSpliceCommand
+//@   modifies *buf
+
+//@ func (c *spliceInsert) parse(buf *bytes.Buffer) error
+//@   props C05 C08
+//@   requires c != nil && buf != nil && verifBufOK(buf)
+//@   ensures verifBufOK(buf)
+//@   ensures old(buf.Len()) < 5 ==> result == gots.ErrInvalidSCTE35Length
+//@   ensures old(buf.Len()) >= 5 && result == nil ==> c.eventID == uint32(old(buf.Bytes()[0]))<<24|uint32(old(buf.Bytes()[1]))<<16|uint32(old(buf.Bytes()[2]))<<8|uint32(old(buf.Bytes()[3])) && c.eventCancelIndicator == (old(buf.Bytes()[4]) >= 128)
+//@   modifies *c, *buf, c.components[*]
+//@   loop 1 (cc uint8)
+//@     invariant c != nil && buf != nil && verifBufOK(buf)
+//@     invariant c.spliceImmediate == pre(c.spliceImmediate) && c.eventID == pre(c.eventID) && c.eventCancelIndicator == pre(c.eventCancelIndicator) && c.hasDuration == pre(c.hasDuration)
+//@     invariant fresh(c.components) || !verifSeparate(c.components, old(c.components)) || cap(c.components) == 0
+//@     decreases int(cc)
+
+//@ func parseSpliceInsert(buf *bytes.Buffer) (cmd *spliceInsert, err error)
+//@   props C05 C08
+//@   requires buf != nil && verifBufOK(buf)
+//@   ensures verifBufOK(buf)
+//@   ensures err == nil ==> cmd != nil && fresh(cmd)
+//@   ensures err != nil ==> cmd == nil
+//@   modifies *buf
+
+
+//@ func componentFromBytes(bytes []byte) componentOffset
+//@   props C05 C08
+//@   requires len(bytes) >= 6
+//@   ensures result.componentTag == bytes[0] && uint64(result.ptsOffset) == uint64(bytes[1]%2)<<32|uint64(bytes[2])<<24|uint64(bytes[3])<<16|uint64(bytes[4])<<8|uint64(bytes[5])
+//@   modifies nothing
+
+//@ func (d *segmentationDescriptor) parseDescriptor(data []byte) error
+//@   props C05 C08
+//@   requires d != nil
+//@   ensures len(data) < 9 ==> result == gots.ErrInvalidSCTE35Length
+//@   ensures len(data) >= 9 && !(data[0] == 0x43 && data[1] == 0x55 && data[2] == 0x45 && data[3] == 0x49) ==> result == gots.ErrSCTE35InvalidDescriptorID
+//@   ensures len(data) >= 9 && result == nil ==> d.eventID == uint32(data[4])<<24|uint32(data[5])<<16|uint32(data[6])<<8|uint32(data[7]) && d.eventCancelIndicator == (data[8] >= 128)
+//@   modifies *d, d.components[*], d.mid[*]
+//@   loop 1 (ct uint8, buf *bytes.Buffer)
+//@     invariant d != nil && verifBufOK(buf) && int(ct)*6 <= buf.Len()-5
+//@     invariant d.eventID == pre(d.eventID) && d.eventCancelIndicator == pre(d.eventCancelIndicator) && d.hasDuration == pre(d.hasDuration)
+//@     invariant fresh(d.components) || !verifSeparate(d.components, old(d.components)) || cap(d.components) == 0
+//@     invariant forall j in 0..len(data) :: data[j] == old(verifSnap(data))[j]
+//@     decreases int(ct)
+//@   loop 2 (segUpidLen int, buf *bytes.Buffer)
+//@     invariant d != nil && verifBufOK(buf) && segUpidLen <= 255
+//@     invariant d.eventID == pre(d.eventID) && d.eventCancelIndicator == pre(d.eventCancelIndicator)
+//@     invariant fresh(d.mid)
+//@     invariant forall j in 0..len(data) :: data[j] == old(verifSnap(data))[j]
+//@     decreases segUpidLen + 2
+
+
+func specP(data []byte) int { return int(data[0]) }
+
+//@ func (s *scte35) parseTable(data []byte) error
+//@   props C05 C08
+//@   requires s != nil && (cap(s.otherDescriptorBytes) == 0 || verifSeparate(s.otherDescriptorBytes, data))
+//@   ensures len(data) == 0 || len(data) < specP(data)+19 ==> result == gots.ErrInvalidSCTE35Length
+//@   ensures len(data) >= 1 && len(data) >= specP(data)+19 && data[specP(data)+1] != 0xfc ==> result == gots.ErrUnknownTableID
+//@   ensures len(data) >= 1 && len(data) >= specP(data)+19 && data[specP(data)+1] == 0xfc && data[specP(data)+5] >= 128 ==> result == gots.ErrSCTE35EncryptionUnsupported
+//@   ensures result == nil ==> len(data) >= 1 && len(data) >= specP(data)+19 && s.tableHeader.TableID == 0xfc
+//@   ensures result == nil ==> s.protocolVersion == data[specP(data)+4] && s.cwIndex == data[specP(data)+10]
+//@   ensures result == nil ==> byte(s.tier/16) == data[specP(data)+11] && s.tier < 4096
+//@   ensures result == nil ==> byte(s.commandType) == data[specP(data)+14]
+//@   ensures result == nil ==> s.commandType == 0 || s.commandType == 5 || s.commandType == 6
+//@   modifies *s, s.otherDescriptorBytes[*], s.descriptors[*]
+//@   loop 1 (bytesRead uint16, buf *bytes.Buffer, descriptorLoopLength uint16)
+//@     invariant s != nil && verifBufOK(buf) && bytesRead <= descriptorLoopLength
+//@     invariant cap(s.otherDescriptorBytes) == 0 || verifSeparate(s.otherDescriptorBytes, data)
+//@     invariant s.tableHeader.TableID == 0xfc && s.protocolVersion == pre(s.protocolVersion) && s.cwIndex == pre(s.cwIndex) && s.tier == pre(s.tier) && s.commandType == pre(s.commandType)
+//@     invariant fresh(s.otherDescriptorBytes) || !verifSeparate(s.otherDescriptorBytes, old(s.otherDescriptorBytes)) || cap(s.otherDescriptorBytes) == 0
+//@     invariant fresh(s.descriptors) || !verifSeparate(s.descriptors, old(s.descriptors)) || cap(s.descriptors) == 0
+//@     invariant forall j in 0..len(data) :: data[j] == old(verifSnap(data))[j]
+//@     decreases int(descriptorLoopLength) - int(bytesRead)
+
+//@ func NewSCTE35(data []byte) (x SCTE35, err error)
+//@   props C05 C08
+//@   ensures len(data) == 0 ==> err == gots.ErrInvalidSCTE35Length
+//@   ensures err == nil ==> x != nil
+//@   ensures err != nil ==> x == nil
+//@   modifies nothing
+
+var _ = bytes.MinRead
